@@ -31,17 +31,18 @@ open Drx Drx.Lscr Drx.Spec Drx.Link Drx.LinkFlow
 def NamesOk (c : Compiled) : Prop := (∀ n ∈ c.names, asciiName n = true) ∧ c.names.length < 32768
 
 /-- **C03 on bytes, structured fragment.** -/
-theorem C03_bytes_structured (o : Options) (s : Script) (c : Compiled) (hf : FragScriptT s = true) (hc : compile o s = .ok c)
+theorem C03_bytes_structured (o : Options) (s : Spec.Script) (c : Compiled) (hf : FragScriptT s = true) (hc : compile o s = .ok c)
     (hn : NamesOk c) : ∃ t, Lscr.parseScript c.lscr c.lnam = .ok t ∧ ScriptRelg Fsrc s t :=
   parse_structured o s c hf hc hn.1 hn.2
 
 /-- what `ScriptRelg Fsrc` says about each handler: its statements are the image of the structured source body, then `exit` -/
-theorem handler_tree (s : Script) (t : Lscr.Script) (h : ScriptRelg Fsrc s t) :
+theorem handler_tree (s : Spec.Script) (t : Lscr.Script) (h : ScriptRelg Fsrc s t) :
     All2 (fun (hd : Handler) (f : FuncDef) => f.name = hd.name ∧ ∃ fin p q, f.stmts = fin ++ [exitNode p q] ∧ EmbTs hd.body fin)
       s.handlers t.functions := by
   have := h.funcs
-  generalize s.handlers = hs at this
+  generalize s.handlers = hl at this
   generalize t.functions = fs at this
+  generalize s.globals = sg at this
   induction this with
   | nil => exact All2.nil
   | cons hr _ ih => exact All2.cons ⟨hr.name, hr.stmts⟩ ih
@@ -51,15 +52,16 @@ theorem handler_tree (s : Script) (t : Lscr.Script) (h : ScriptRelg Fsrc s t) :
 theorem structured_stack_lemma (ss : List Stmt) (hf : FragTs ss = true) : Structs ss := structs_all ss hf
 
 /-- the skeleton is in the class of the reconstruction theorem -/
-theorem skeleton_in_class (ss : List Stmt) (src : List Src) (h : EmbSrc ss src) (hok : okAmbs false ss = true) (o : Int) :
-    Src.oks none o src = true :=
-  classs ss src h false none o (Or.inl rfl) hok
+theorem skeleton_in_class (ss : List Stmt) (src : List Src) (hf : FragTs ss = true) (h : EmbSrc ss src)
+    (hok : okAmbs false ss = true) (o : Int) : Src.oks none o src = true :=
+  classs ss src hf h false none o (Or.inl rfl) hok
 
 /-- the flow passes on the raw list of an embedded body followed by the handler's final exit -/
-theorem flow_passes (ss : List Stmt) (src : List Src) (hemb : EmbSrc ss src) (hok : okAmbs false ss = true) (a : Nat) (q : Int) :
+theorem flow_passes (ss : List Stmt) (src : List Src) (hf : FragTs ss = true) (hemb : EmbSrc ss src) (hok : okAmbs false ss = true)
+    (a : Nat) (q : Int) :
     (condDetect (emit false (a : Int) (lower src) ++ [exitNode ((a : Int) + P.sizes (lower src)) q])).bind loopDetect =
       .ok (tgtL (a : Int) src ++ [exitNode ((a : Int) + P.sizes (lower src)) q]) :=
-  flow_core ss src hemb hok a q
+  flow_core ss src hf hemb hok a q
 
 /-- the reconstructed tree is the image of the source -/
 theorem tree_is_source (ss : List Stmt) (src : List Src) (h : EmbSrc ss src) (o : Int) : EmbTs ss (tgtL o src) := embT_tgtL ss src h o
@@ -73,7 +75,7 @@ theorem loopWalk_guard_never_fires (r r3 : Ro) (prev : Option Node) (rm : Bool) 
 
 /-- `on go n / set x = 1 / repeat while x < n / if x = 3 then / repeat with i = 1 to 9 / put i / end repeat / else / set x = x + 2 /
      end if / put x / end repeat / end` -/
-def exScript : Script :=
+def exScript : Spec.Script :=
   { factory := [], props := [], globals := [],
     handlers := [
       { name := "go".toList, params := ["n".toList], isMethod := false,
